@@ -21,12 +21,16 @@ def criterion_of(opts):
     return "size" if "-size" in opts else "length" if "-length" in opts else "gas"
 
 
-def _gas(block, st, adj, flat_exp=False, force_warm=None):
-    if force_warm is None:
+def _gas(block, st, adj, flat_exp=False, force_warm=None, static_storage=False):
+    if force_warm is None and not static_storage:
         o = evm.observe(block, st, meter="flat_exp" if flat_exp else True)
     else:
-        o = evm.observe(block, st, meter={"flat_exp": flat_exp, "force_warm": force_warm})
-    return o.gas + adj, o.halt, o.warm_log
+        o = evm.observe(block, st, meter={"flat_exp": flat_exp, "force_warm": force_warm, "no_storage": static_storage})
+    g = o.gas + adj
+    if static_storage:
+        # storage accesses priced statically (warm/cold and store price by the syntactic key term), all the rest metered
+        g += costs.static_storage_gas(block)
+    return g, o.halt, o.warm_log
 
 
 def _structural_warm(block, states):
@@ -79,11 +83,12 @@ def compare_costs(orig, emitted, push0, rnd, k):
         explained, unexplained = set(), None
         for st, g1, g2 in worse:
             why = None
-            for name, fe, fw in (("exp", True, False), ("alias", False, True), ("exp+alias", True, True)):
+            for name, fe, fw, ss in (("exp", True, False, False), ("alias", False, True, False), ("exp+alias", True, True, False),
+                                     ("storage-model", False, False, True), ("exp+storage-model", True, False, True)):
                 if fw and (fw_o is None or fw_e is None):
                     continue
-                a1, _, _ = _gas(orig, st, adj_o, flat_exp=fe, force_warm=fw_o if fw else None)
-                a2, _, _ = _gas(emitted, st, adj_e, flat_exp=fe, force_warm=fw_e if fw else None)
+                a1, _, _ = _gas(orig, st, adj_o, flat_exp=fe, force_warm=fw_o if fw else None, static_storage=ss)
+                a2, _, _ = _gas(emitted, st, adj_e, flat_exp=fe, force_warm=fw_e if fw else None, static_storage=ss)
                 if a2 <= a1:
                     why = name
                     break
@@ -172,6 +177,13 @@ def handle(case):
         _count("strictly_cheaper_gas_on_some_state")
     if why == "gas increased on some state" and c.get("only_exp_pricing") and any(n == "EXP" for n, _ in orig):
         why = "gas increased only on states where EXP's exponent is shorter than the one byte the static price assumes"
+    elif why and c.get("gas_explained") and "storage-model" in " ".join(c["gas_explained"]) and (
+            why == "gas increased on some state" or
+            (why.endswith("another criterion got worse") and c["bytes"][1] <= c["bytes"][0] and c["length"][1] <= c["length"][0])):
+        # the only thing that got worse is gas, and only because storage accesses are priced statically by the tool
+        why = "gas increased only where the static pricing of storage accesses (warm/cold by the written key term, " \
+              "fixed SSTORE price) differs from the run-time price"
+        _count("gas_increase_explained_by_static_storage_pricing")
     elif why and c.get("gas_explained") and "alias" in " ".join(c["gas_explained"]) and (
             why == "gas increased on some state" or
             (why.endswith("another criterion got worse") and c["bytes"][1] <= c["bytes"][0] and c["length"][1] <= c["length"][0])):
